@@ -11,7 +11,7 @@ theorem gLoop_cons (rec : Nat → GSt → Out × GSt) (s : Store) (stop : Bool) 
     (i : Ing) (is : List Ing) (st : GSt) :
     gLoop rec s stop u (i :: is) st =
       match i.target with
-      | none => gLoop rec s stop u is st
+      | none => gLoop rec s stop u is (gSkip st)
       | some v =>
         if v < s.length then
           if v ∈ st.path then (.cyclic, gCyc st u)
